@@ -116,6 +116,7 @@ func runC14Gaps2(c *eng.Ctx) {
 	c14gPatchBase(c)
 	c14gUpgradeGate(c)
 	c14gLockTable(c)
+	c14gSaltCache(c)
 }
 
 // ---- the storage key of a version is a function of (key, version)
@@ -267,9 +268,13 @@ func c14gConfigCopies(c *eng.Ctx) {
 	if !c.Floor(f, "exported settings of kv.Configuration", len(fields), 3) {
 		return
 	}
+	installed := map[ssa.Value]bool{} // objects this function installs as the cache
+	for _, s := range eng.Stores(f, `\.globalConfig$`) {
+		installed[s.Val] = true
+	}
 	isCacheLoad := func(v ssa.Value) bool {
 		ld, _ := c14LoadOfField(v, "globalConfig")
-		return ld != nil
+		return ld != nil || installed[v]
 	}
 	nCopies, nRet := 0, 0
 	seen := map[ssa.Value]bool{}
@@ -282,11 +287,12 @@ func c14gConfigCopies(c *eng.Ctx) {
 			seen[v] = true
 			nRet++
 			site := "sibling{configuration handed out = full copy of the cached configuration}"
+			const aliased = "config hands out the cached configuration object itself: callers (the config write handler) modify what they receive before it is persisted, so a config write that fails has already changed the cached cas_required / max_versions the data handlers enforce"
 			if !c14IsAllocOf(v, "kv.Configuration") {
 				if isCacheLoad(v) {
-					c.OK(f, site, r.Pos(), "the cached object itself")
+					c.Violation(f, "alias{configuration handed out is not the cached object}", r.Pos(), aliased, nil)
 				} else {
-					c.Violation(f, site, r.Pos(), "config returns "+eng.ExprDeep(v)+", neither the cached configuration nor a literal copy of it", nil)
+					c.Violation(f, site, r.Pos(), "config returns "+eng.ExprDeep(v)+", not a literal copy of the cached configuration", nil)
 				}
 				continue
 			}
@@ -306,30 +312,23 @@ func c14gConfigCopies(c *eng.Ctx) {
 				}
 			}
 			if set == 0 {
-				// the freshly decoded configuration: it must be the object that becomes the cache
-				cached := false
-				for _, s := range eng.Stores(f, `\.globalConfig$`) {
-					if s.Val == v {
-						cached = true
-					}
-				}
-				if cached {
-					c.OK(f, site, r.Pos(), "the decoded configuration, installed as the cache")
+				if installed[v] {
+					c.Violation(f, "alias{configuration handed out is not the cached object}", r.Pos(), aliased, nil)
 				} else {
-					c.Violation(f, site, r.Pos(), "config returns an empty Configuration that is not the decoded/cached one", nil)
+					c.Violation(f, site, r.Pos(), "config returns an empty Configuration", nil)
 				}
 				continue
 			}
 			nCopies++
 			if len(missing) == 0 {
-				c.OK(f, site, r.Pos(), "copies "+strings.Join(fields, ", ")+" from b.globalConfig")
+				c.OK(f, site, r.Pos(), "copies "+strings.Join(fields, ", ")+" from the cached configuration")
 			} else {
 				c.Violation(f, site, r.Pos(), "the copy of the cached engine configuration is incomplete or mixed up: "+strings.Join(missing, "; ")+" — a warm cache changes cas_required / max_versions semantics", nil)
 			}
 		}
 	}
 	c.Floor(f, "configuration values returned", nRet, 2)
-	c.Floor(f, "literal copies of the cached configuration", nCopies, 1)
+	c.Floor(f, "literal copies of the cached configuration", nCopies, 2)
 }
 
 // ---- the JSON merge behind patch: current data is the document, the request is the patch
@@ -476,4 +475,42 @@ func c14gLockTable(c *eng.Ctx) {
 		c.OK(first, "writer{kv.versionedKVBackend.locks}", pos, fmt.Sprintf("%d writer(s), all in the factory", len(ws)))
 	}
 	c.Floor(nil, "writers of kv.versionedKVBackend.locks", len(ws), 1)
+}
+
+// ---- the version-key salt is cached only once it is durable: a salt that was
+// generated through a transaction (the handlers hand Salt their open write
+// transaction) disappears from storage when that transaction is rolled back,
+// while the cached copy keeps deriving version keys until the next restart.
+func c14gSaltCache(c *eng.Ctx) {
+	f := c.Fn("kv.(*versionedKVBackend).Salt")
+	if f == nil {
+		return
+	}
+	c.Clause("R2", "C14.2")
+	news := eng.Calls(f, `^salt\.NewSalt$`)
+	if !c.Floor(f, "NewSalt call", len(news), 1) {
+		return
+	}
+	var fills []ssa.Instruction
+	for _, s := range eng.Stores(f, `\.salt$`) {
+		for _, n := range news {
+			if nv, ok := n.(ssa.Value); ok && c14gMentions(s.Val, c14gIs(nv)) {
+				fills = append(fills, s)
+			}
+		}
+	}
+	if !c.Floor(f, "cache fill b.salt = NewSalt(...)", len(fills), 1) {
+		return
+	}
+	// the storage NewSalt creates the salt through is the caller's
+	for _, n := range news {
+		a := n.Common().Args
+		if len(a) >= 2 {
+			if _, isParam := a[1].(*ssa.Parameter); !isParam {
+				c.Undecided(f, "prov{storage the salt is created through}", n.Pos(), "NewSalt is not handed Salt's storage parameter: "+eng.ExprDeep(a[1]))
+			}
+		}
+	}
+	c.Cut(f, "cache fill with a salt created through the caller's storage", fills,
+		eng.Or(eng.G(f, `\.\(logical\.Transaction\)#1$`, false), eng.G(f, `^salt\.\(\*Salt\)\.DidGenerate\(\)$`, false)), nil)
 }
